@@ -60,7 +60,6 @@ where
     }
 }
 
-#[allow(dead_code)]
 struct YieldOnce(bool);
 
 impl Future for YieldOnce {
@@ -78,7 +77,6 @@ impl Future for YieldOnce {
 }
 
 /// A declared schedule point: another task may run here if the simulator says so
-#[allow(dead_code)]
 pub(crate) async fn sched_point(name: &'static str) {
     let yield_now = HOOKS.with(|h| match h.borrow().as_ref() {
         Some(hooks) => (hooks.sched_point)(name),
